@@ -390,6 +390,13 @@ func execHistory(h history, eng int, mark func(step int, site, phase string)) (r
 
 const knownSig = "rawref:no-import-edge:owner-closed-and-collected"
 
+func ownerName(x int) string {
+	if x == mD {
+		return "D"
+	}
+	return modNames[x]
+}
+
 func modStatus(s state, x int) string {
 	if x == mD {
 		return "instantiation-failed,import-edge-to-A.tab"
@@ -431,7 +438,7 @@ func classify(s state, eng int, f stepFail) (sig string, known bool) {
 		fn := s.Slots[sl]
 		d := slotNames[sl] + "=" + fnNames[fn]
 		if fn != fNull {
-			d += "(owner " + "ABCMND"[fnOwner[fn]:fnOwner[fn]+1] + ":" + modStatus(s, fnOwner[fn]) + ")"
+			d += "(owner " + ownerName(fnOwner[fn]) + ":" + modStatus(s, fnOwner[fn]) + ")"
 		}
 		parts = append(parts, d)
 	}
